@@ -18,8 +18,8 @@ def wrap(body, how):
 def failing_bodies():
     B = []
     for e in ["1 / 0", "1 % 0", "1 << -1", "1u % 0u", "'a' % '\\x00'", "true % 0", "[1][5]", "[1, 2][1:0]", "\"abc\"[2:1]", "undefined()", "5()", "\"s\" - 1",
-              "{}.a.b.c()", "[1][\"x\"]", "int(\"zz\")", "len()", "append()", "gopanic()", "goindex()", "goerr()", "-\"s\"", "[1][0:9]", "{a: 1}.a.b.c.d"]:
-        B.append(("expr:" + e, "global (gopanic, goindex, goerr)\nreturn %s" % e))
+              "{}.a.b.c()", "[1][\"x\"]", "int(\"zz\")", "len()", "append()", "gopanic()", "gopanicnil()", "goindex()", "goerr()", "-\"s\"", "[1][0:9]", "{a: 1}.a.b.c.d"]:
+        B.append(("expr:" + e, "global (gopanic, gopanicnil, goindex, goerr)\nreturn %s" % e))
     for n in (1000, 1020, 1021, 1022, 1023, 1024, 1025, 3000):
         B.append(("depth-%d" % n, "var f\nf = func(n) { if n == 0 { return 1 / 0 }; return f(n - 1) + 1 }\nreturn f(%d)" % n))
         B.append(("depth-ok-%d" % n, "var f\nf = func(n) { if n == 0 { return 1 }; return f(n - 1) + 1 }\nreturn f(%d)" % n))
@@ -33,6 +33,17 @@ def failing_bodies():
         B.append(("wide-call-%d" % min(N, 255), "f := func(...a) { return len(a) }\nreturn f(" + ",".join("1" for _ in range(min(N, 255))) + ")"))
     for N in (200, 255):
         B.append(("args-deep-%d" % N, "var f\nf = func(n, ...a) { return f(n + 1, " + ",".join("1" for _ in range(N - 1)) + ") }\nreturn f(0)"))
+    # every frame guards its own recursive call: the frame limit is reached first (no parameters, no locals), the
+    # deepest frame catches the overflow itself and returns; exactly one catch block must run
+    for variant, fn in enumerate([
+            "f = func() { cnt++; try { f() } catch { hits++ } }",
+            "f = func() { cnt++; try { f() } catch e { hits++ } finally { fin++ } }",
+            "f = func() { cnt++; try { return f() } catch { hits++; return 0 } }",
+            "f = func() { cnt++; try { f() } catch { hits++; g() } }",
+            "f = func() { cnt++; try { f() } finally { fin++ } }",
+            "f = func(a) { cnt++; try { f(a) } catch { hits++ } }",
+            "f = func() { x := cnt; cnt++; try { f() } catch { hits++ } ; return x }"]):
+        B.append(("frame-limit-guarded-%d" % variant, "var f\ncnt := 0\nhits := 0\nfin := 0\ng := func() { return 1 }\n%s\nr := undefined\ntry { r = f(%s) } catch { hits += 100 }\nreturn [cnt > 500, hits, fin == 0 || fin == cnt]" % (fn, "1" if "func(a)" in fn else "")))
     B.append(("throw-in-finally", "try { throw \"a\" } finally { throw \"b\" }"))
     B.append(("panic-in-finally", "global gopanic\ntry { return 1 } finally { gopanic() }"))
     B.append(("panic-in-catch", "global gopanic\ntry { throw 1 } catch e { gopanic() } finally { q := 2 }"))
@@ -44,9 +55,9 @@ def run(rep, br, proofs, rng, tier):
     for name, body in failing_bodies():
         hows = range(5) if (tier == "thorough" or len(body) < 3000) else [0, 1]
         for how in hows:
-            src = wrap(body.replace("global (gopanic, goindex, goerr)\n", ""), how)
-            if "gopanic" in src or "goindex" in src or "goerr" in src:
-                src = "global (gopanic, goindex, goerr)\n" + src.replace("global gopanic\n", "")
+            src = wrap(body.replace("global (gopanic, gopanicnil, goindex, goerr)\n", ""), how)
+            if "gopanic" in src or "goindex" in src or "goerr" in src:  # (gopanicnil contains gopanic)
+                src = "global (gopanic, gopanicnil, goindex, goerr)\n" + src.replace("global gopanic\n", "")
             for args in ([], [["i", "1"], ["s", hexs(b"x")], ["a", ["n"]]]):
                 c = mk_case("f.%s.%d.%d" % (name.replace(" ", "_").replace("(", "").replace(")", "")[:40], how, len(args)), "history", "1",
                             ["hist", [hexs(src.encode()), "0", "0"]], hexs(FOLLOW.encode()), ["args"] + args)
@@ -66,6 +77,15 @@ def run(rep, br, proofs, rng, tier):
         classes[k] = classes.get(k, 0) + 1
         if k == "panic":
             fails.append((c, "a Go panic escaped VM.Run with recovery enabled: %s" % vlib.sexp_str(r)[:300])); continue
+        if c["name"].startswith("expr:") and c["id"].split(".")[-2] == "0" and k == "ok":
+            fails.append((c, "an expression that fails returned a value: %s" % vlib.sexp_str(r)[:200])); continue
+        if c["name"].startswith("frame-limit-guarded") and c["id"].split(".")[-2] == "0" and k == "ok":
+            v = vlib.sexp_str(r[1])
+            # variant 3 calls another function from the catch block of the deepest frame: that call overflows too and is
+            # caught one frame up, where the call then succeeds: two catch blocks
+            want = {"3": "(a (b 1) (i 2) (b 1))", "4": "(a (b 1) (i 100) (b 1))"}.get(c["name"][-1], "(a (b 1) (i 1) (b 1))")
+            if v != want:
+                fails.append((c, "recursion to the frame limit with a handler in every frame: expected exactly one handler to run, got [deep enough, catch blocks run, finally count consistent] = %s" % v)); continue
         if k not in ("ok", "err", "timeout"):
             fails.append((c, "unexpected outcome class " + k)); continue
         used, fresh = vlib.sexp_str(sx[2][1]), vlib.sexp_str(sx[4][1])
